@@ -265,6 +265,10 @@ func runC05(c *Ctx) {
 		}
 		for name, m := range map[string]mux.Matcher{"Hosts.Match": hosts, "PathVersion.Match": pv, "HeaderVersion.Match": hv} {
 			ctx := types.NewContext()
+			if r.Bool() { // the object the pool's New function makes: it never owned a parameter map
+				ctx.Destroy()
+				ctx = &types.Context{}
+			}
 			guard(c, name, info(map[string]any{"path": short(q.Path), "host": short(q.Host), "header": fmt.Sprintf("%q", q.Header)}), func() { m.Match(req, ctx) })
 			ctx.Destroy()
 		}
